@@ -74,7 +74,7 @@ func mkConsts(texts ...string) []konst {
 	return out
 }
 
-var allConsts, midConsts, fewConsts []konst
+var allConsts, midConsts, fewConsts, flowConsts []konst
 
 func initConsts() {
 	allConsts = mkConsts("0", "1", "-1", "2", "7", "255", "2147483647", "2147483648", "4294967295", "9223372036854775807",
@@ -83,6 +83,7 @@ func initConsts() {
 		"true", "false", "#20200101", "#20200101.1234", "#()", "#(1)")
 	midConsts = mkConsts("0", "1", "-1", "7", "2147483647", "4294967295", "9223372036854775807", ".5", "1e20",
 		`""`, `"a"`, `"1"`, `"^a"`, "true", "false", "#20200101", "#(1)")
+	flowConsts = mkConsts("1", "2", "3", `"a"`, "1.5", "true")
 	fewConsts = mkConsts("0", "1", "-1", "9223372036854775807", "1.5", "1e20", `""`, `"a"`, "true", "false", "#20200101", "#()")
 }
 
@@ -165,6 +166,28 @@ func shapes(c *lib.Ctx) []shape {
 	add("prop chain", "x = "+h(0)+"; y = x; z = y; return z $ "+h(1), 2, allConsts, -1)
 	add("prop not-final", "x = "+h(0)+"; x = "+h(1)+"; return x", 2, midConsts, -1)
 	add("prop cond-assign", "if "+h(0)+" { x = "+h(1)+" } else { x = "+h(2)+" }; return x", 3, midConsts, 0)
+	// propagation vs control flow: a single-assignment local is assigned on one
+	// path and read on another (hole 2 selects the path at run time or, as a
+	// constant, at compile time); the folded program must not know the value on a
+	// path that does not pass the assignment
+	for _, f := range [][2]string{
+		{"switch later case", "switch " + h(2) + " { case 1: x = " + h(0) + "; r = x $ " + h(1) + " case 2: r = x $ " + h(1) + " default: r = 'd' }; return r"},
+		{"switch earlier case", "switch " + h(2) + " { case 1: r = x $ " + h(1) + " case 2: x = " + h(0) + "; r = x $ " + h(1) + " default: r = 'd' }; return r"},
+		{"switch case expression", "switch " + h(2) + " { case 1: x = " + h(0) + "; r = 'a' case x: r = 'm' default: r = 'd' }; return r"},
+		{"switch default", "switch " + h(2) + " { case 1: x = " + h(0) + "; r = 'a' default: r = x $ " + h(1) + " }; return r"},
+		{"switch then after", "switch " + h(2) + " { case 1: x = " + h(0) + " case 2: r = 'b' default: r = 'd' }; return x $ " + h(1)},
+		{"switch same case", "switch " + h(2) + " { case 1: x = " + h(0) + "; return x $ " + h(1) + " case 2: return 'b' }; return 'n'"},
+		{"if else other branch", "if " + h(2) + " is 1 { x = " + h(0) + "; r = x $ " + h(1) + " } else { r = x $ " + h(1) + " }; return r"},
+		{"if then later if", "if " + h(2) + " is 1 { x = " + h(0) + " }; if " + h(2) + " isnt 3 { return x $ " + h(1) + " }; return 'n'"},
+		{"while body", "i = 0; r = 'none'; while i++ < 2 { if i is " + h(2) + " { x = " + h(0) + " } else { r = x $ " + h(1) + " } }; return r"},
+		{"for-in body", "x = " + h(0) + "; r = ''; for y in #(1, 2) { if y is " + h(2) + " { r $= x $ " + h(1) + " } }; return r"},
+		{"try catch", "try { if " + h(2) + " is 1 { throw 'e' }; x = " + h(0) + "; r = x $ " + h(1) + " } catch (e) { r = x $ " + h(1) + " }; return r"},
+		{"?: arms", "r = " + h(2) + " is 1 ? (x = " + h(0) + ") : 'o'; return " + h(2) + " is 3 ? 'n' : r $ x $ " + h(1)},
+		{"and rhs", "r = " + h(2) + " is 1 and (x = " + h(0) + ") isnt 'zz'; return " + h(2) + " is 3 ? r : x $ " + h(1)},
+		{"block maybe called", "b = { x = " + h(0) + " }; if " + h(2) + " is 1 { b() }; return " + h(2) + " is 3 ? 'n' : x $ " + h(1)},
+	} {
+		add("flow "+f[0], f[1], 3, flowConsts, -1)
+	}
 	add("param range", "return «0» > "+h(1)+" and «0» < "+h(2), 3, midConsts, -1)
 	add("param or-is", "return «0» is "+h(1)+" or «0» is "+h(2), 3, midConsts, -1)
 	return out
@@ -299,6 +322,13 @@ func judge(s *shape, tuple []int, params uint, got, ref outcome) (verdict, msg s
 			if m[1] == "Boolean" && tmplHas(s, boolOps...) || m[1] == "String" && tmplHas(s, "$") {
 				return "static", ""
 			}
+		}
+		if strings.HasPrefix(got.Text, "possibly uninitialized variable") {
+			// the compiler's static diagnostic for a single-assignment local read on
+			// a path that does not pass the assignment: the program is outside the
+			// domain (it is the folded program being ACCEPTED with a wrong value that
+			// the flow shapes look for)
+			return "static", ""
 		}
 		if got.Text == "?: requires boolean" || got.Text == "if requires boolean" {
 			return "static", "" // the condition folded to a non-boolean constant; run time would raise its own error or never get there
